@@ -230,6 +230,16 @@ def harness(cfgk, rel, can_view, outk, raises, guard, constk, p0state):
         cfg.summaries[f"{LM}:unique_arrs_and_bases"] = uniq
         cfg.summaries[f"{LM}:lock_arr_writeability"] = lambda i_, a, k: (ev.append(("lock", a[0], k)), a[0])[1]
 
+        def lockset(interp_, args, kwargs):
+            # contract C08.lockset (contracts/c08_sets.py) in a state where no operand array is natively read-only (that case is decided there):
+            # every array of unique_arrs_and_bases(operands) locked once, not forced, in that order; the locked arrays are returned
+            outl = uniq(interp_, args, kwargs)
+            for a_ in outl:
+                ev.append(("lock", a_, {}))
+            return tuple(outl)
+
+        cfg.summaries[f"{LM}:lock_unique_arrs_and_bases"] = lockset
+
         def release(interp_, args, kwargs):
             ev.append(("release", list(interp_.iterate_concrete(args[0]))))
 
